@@ -21,9 +21,8 @@ theorem ofS_toS (e : Elt) : ofS (toS e) = e := by
   cases e; simp [ofS, toS]
 
 theorem map_ofS_toS (l : List Elt) : (l.map toS).map ofS = l := by
-  induction l with
-  | nil => rfl
-  | cons e l ih => simp [ofS_toS] at ih ⊢
+  have : ofS ∘ toS = id := funext ofS_toS
+  rw [List.map_map, this, List.map_id]
 
 def toA (l : List Elt) : Nq.Sched.PQ := (l.map toS).toArray
 
@@ -55,7 +54,8 @@ theorem sim_siftUp (pe : Elt) : ∀ (f : Nat) (a : List Elt) (j : Nat),
     simp only [siftUp, Nq.Sched.siftUp]
     by_cases hj : j = 0
     · subst hj; simp [toA_set]
-    · rw [if_neg hj, if_neg hj, toA_get, toS_dt_le]
+    · rw [if_neg hj, if_neg hj]
+      simp only [toA_get, toS_dt_le]
       by_cases hc : (eltAt a ((j - 1) / 2)).dt ≤ pe.dt
       · rw [if_pos hc, if_pos hc, toA_set]
       · rw [if_neg hc, if_neg hc, ih, toA_set]
@@ -124,12 +124,32 @@ theorem sched_siftDown_fuel : ∀ (f : Nat) (a : Nq.Sched.PQ) (n i : Nat), n ≤
     rw [Nq.Sched.siftDown]
     conv => rhs; rw [Nq.Sched.siftDown]
     simp only
+    by_cases hj : i + i + 2 > n
+    · rw [if_pos hj, if_pos hj]
+    · rw [if_neg hj, if_neg hj]
+      generalize hjj : (if a[i + i + 2 - 1]!.dt ≤ a[i + i + 2]!.dt then i + i + 2 - 1 else i + i + 2) = j'
+      have hj' : i < j' := by rw [← hjj]; split <;> omega
+      split
+      · rfl
+      · exact ih _ _ _ (by omega)
+
+theorem siftDown_length : ∀ (f : Nat) (a : List Elt) (i n : Nat), (siftDown f a i n).1.length = a.length := by
+  intro f
+  induction f with
+  | zero => intro a i n; rfl
+  | succ f ih =>
+    intro a i n
+    simp only [siftDown]
     split
     · rfl
-    · split
+    · generalize (if (eltAt a (i + i + 2 - 1)).dt ≤ (eltAt a (i + i + 2)).dt then i + i + 2 - 1 else i + i + 2) = j'
+      split
       · rfl
-      · apply ih
-        split <;> omega
+      · rw [ih]; simp
+
+theorem toA_take_pop (l : List Elt) (n : Nat) (h : l.length = n + 1) : toA (l.take n) = (toA l).pop := by
+  apply Array.ext'
+  simp [toA, List.dropLast_eq_take, h]
 
 /-- `prioq_insert` of the POP3 model is `prioq_insert` of the scheduler model -/
 theorem toA_pqInsert (pq : List Elt) (pe : Elt) : toA (pqInsert pq pe) = (toA pq).insert (toS pe) := by
@@ -148,15 +168,12 @@ theorem toA_pqDelmin (pq : List Elt) : toA (pqDelmin pq) = (toA pq).delmin := by
     simp only [Nat.succ_ne_zero, if_false, Nat.add_sub_cancel]
     by_cases h0 : n = 0
     · subst h0
-      apply Array.ext'
-      simp [siftDown, Nq.Sched.siftDown, toA, hn]
+      obtain ⟨x, rfl⟩ := List.length_eq_one_iff.mp hn
+      rfl
     · have hs := sim_siftDown (n + 2) pq 0 n (by omega)
       rw [sched_siftDown_fuel (n + 1) _ _ _ (by omega), sched_siftDown_fuel n _ _ _ (by omega)] at hs
       rw [← hs]
-      apply Array.ext'
-      simp only [toA, Array.toList_pop, List.map_take]
-      rw [List.dropLast_eq_take]
-      simp [hn]
+      exact toA_take_pop _ n (by rw [List.length_set, siftDown_length, hn])
 
 /-! ### heap facts for the list model, from `Nq.Lemmas.Sched` -/
 
@@ -240,15 +257,160 @@ theorem insert_drain_sorted (l : List Elt) :
       intro pq h
       obtain ⟨a1, a2⟩ := pqInsert_spec pq e h
       obtain ⟨b1, b2⟩ := ih _ a1
-      refine ⟨b1, b2.trans ?_⟩
-      simp only [List.cons_append]
-      exact (List.perm_middle.symm.trans ((List.perm_cons e).mpr (List.Perm.refl _))).symm.symm |>.trans
-        (by
-          have := (List.perm_append_left_iff l).mpr a2
-          exact this.trans List.perm_middle)
+      exact ⟨b1, b2.trans (((List.perm_append_left_iff l).mpr a2).trans List.perm_middle)⟩
   intro pq
   obtain ⟨h1, h2⟩ := hb l [] heapL_nil
   obtain ⟨d1, d2⟩ := pqDrain_spec pq.length pq (Nat.le_refl _) h1
   exact ⟨d1.trans (by simpa using h2), d2⟩
+
+/-! ### maildir_scan and getlist -/
+
+/-- `d->d_name[0] != '.'` -/
+def notDot (f : File) : Bool := (baseName f).head? != some DOT
+
+/-- the messages a POP3 session shows: the entries of new/ then cur/ (readdir order) whose name does
+not begin with a dot and whose mtime is before the start of the session -/
+def eligible (now : Nat) (fs : FS) : List File :=
+  ((fs.filter (inDir newSl) ++ fs.filter (inDir curSl)).filter notDot).filter (fun f => decide (f.mtime < now))
+
+/-- the size announced for a path: the length of the file of that name at start-up -/
+def sizeAt (fs : FS) (p : Bytes) : Nat := match fsFind fs p with | some f => f.data.length | none => 0
+
+/-- the table entry getlist() makes for a file -/
+def startMsg (fs : FS) (f : File) : Msg := { fn := f.path, size := sizeAt fs f.path, del := false }
+
+/-- the heap entries maildir.c append() creates for the non-dot directory entries `nd`, the first of
+which is stored at index `k` of `filenames` -/
+def entries (now : Nat) : Nat → List File → List Elt
+  | _, [] => []
+  | k, f :: rest => (if f.mtime < now then [⟨f.mtime, k⟩] else []) ++ entries now (k + 1) rest
+
+theorem entries_append (now : Nat) : ∀ (a b : List File) (k : Nat),
+    entries now k (a ++ b) = entries now k a ++ entries now (k + a.length) b := by
+  intro a
+  induction a with
+  | nil => intro b k; simp [entries]
+  | cons f a ih =>
+    intro b k
+    simp only [List.cons_append, entries, ih, List.length_cons, List.append_assoc]
+    congr 3
+    omega
+
+theorem scanDir_spec (now : Nat) : ∀ (files : List File) (names : List Bytes) (pq : List Elt), HeapL pq →
+    (scanDir now files names pq).1 = names ++ (files.filter notDot).map (·.path) ∧
+    HeapL (scanDir now files names pq).2 ∧
+    (scanDir now files names pq).2.Perm (entries now names.length (files.filter notDot) ++ pq) := by
+  intro files
+  induction files with
+  | nil => intro names pq h; simp [scanDir, entries, h]
+  | cons f rest ih =>
+    intro names pq h
+    by_cases hd : (baseName f).head? = some DOT
+    · have hn : notDot f = false := by simp [notDot, hd]
+      simp only [scanDir, hd, if_true, List.filter_cons, hn]
+      exact ih names pq h
+    · have hn : notDot f = true := by simp [notDot, hd]
+      simp only [scanDir, hd, if_false, List.filter_cons, hn, if_true]
+      by_cases hm : f.mtime < now
+      · simp only [hm, if_true]
+        obtain ⟨a1, a2⟩ := pqInsert_spec pq ⟨f.mtime, names.length⟩ h
+        obtain ⟨b1, b2, b3⟩ := ih (names ++ [f.path]) _ a1
+        refine ⟨by rw [b1]; simp, b2, b3.trans ?_⟩
+        simp only [entries, hm, if_true, List.length_append, List.length_singleton, List.cons_append,
+          List.nil_append]
+        exact ((List.perm_append_left_iff _).mpr a2).trans List.perm_middle
+      · simp only [hm, if_false]
+        obtain ⟨b1, b2, b3⟩ := ih (names ++ [f.path]) pq h
+        refine ⟨by rw [b1]; simp, b2, ?_⟩
+        simpa [entries, hm] using b3
+
+def dummyFile : File := ⟨[], [], 0, 0⟩
+
+/-- the directory entry a heap entry stands for -/
+def fileAt (nd : List File) (e : Elt) : File := nd.getD e.id dummyFile
+
+theorem entries_mem (now : Nat) : ∀ (rest pre : List File) (e : Elt), e ∈ entries now pre.length rest →
+    ∃ f, (pre ++ rest)[e.id]? = some f ∧ e.dt = f.mtime := by
+  intro rest
+  induction rest with
+  | nil => intro pre e he; simp [entries] at he
+  | cons f rest ih =>
+    intro pre e he
+    simp only [entries, List.mem_append] at he
+    rcases he with he | he
+    · by_cases hm : f.mtime < now
+      · simp only [hm, if_true, List.mem_singleton] at he
+        subst he
+        exact ⟨f, by simp, rfl⟩
+      · simp [hm] at he
+    · have := ih (pre ++ [f]) e (by simpa using he)
+      simpa using this
+
+theorem entries_files (now : Nat) : ∀ (rest pre : List File),
+    (entries now pre.length rest).map (fileAt (pre ++ rest)) = rest.filter (fun f => decide (f.mtime < now)) := by
+  intro rest
+  induction rest with
+  | nil => intro pre; rfl
+  | cons f rest ih =>
+    intro pre
+    have h := ih (pre ++ [f])
+    simp only [List.length_append, List.length_singleton, List.append_assoc, List.singleton_append] at h
+    simp only [entries, List.map_append, h, List.filter_cons]
+    by_cases hm : f.mtime < now
+    · simp [hm, fileAt]
+    · simp [hm]
+
+/-- **getlist()**: the message table is made from a permutation of the eligible files that is sorted
+by mtime (oldest first; equal mtimes in the order the heap of prioq.c happens to give). -/
+theorem getlist_sorted_perm (now : Nat) (fs : FS) :
+    ∃ L : List File, L.Perm (eligible now fs) ∧ L.Pairwise (fun a b => a.mtime ≤ b.mtime) ∧
+      getlist now fs = L.map (startMsg fs) := by
+  obtain ⟨a1, a2, a3⟩ := scanDir_spec now (fs.filter (inDir newSl)) [] [] heapL_nil
+  obtain ⟨b1, b2, b3⟩ := scanDir_spec now (fs.filter (inDir curSl)) _ _ a2
+  -- the non-dot entries, in the order of `filenames`
+  let nd := (fs.filter (inDir newSl) ++ fs.filter (inDir curSl)).filter notDot
+  have hnd : nd = (fs.filter (inDir newSl)).filter notDot ++ (fs.filter (inDir curSl)).filter notDot :=
+    List.filter_append ..
+  have hnames : (scanDir now (fs.filter (inDir curSl)) (scanDir now (fs.filter (inDir newSl)) [] []).1
+      (scanDir now (fs.filter (inDir newSl)) [] []).2).1 = nd.map (·.path) := by
+    rw [b1, a1, hnd]; simp
+  have hheap : (scanDir now (fs.filter (inDir curSl)) (scanDir now (fs.filter (inDir newSl)) [] []).1
+      (scanDir now (fs.filter (inDir newSl)) [] []).2).2.Perm (entries now 0 nd) := by
+    refine b3.trans ?_
+    rw [hnd, entries_append, a1]
+    simp only [List.nil_append, List.length_map, List.length_nil, Nat.zero_add] at a3 ⊢
+    exact (List.perm_append_comm).trans ((List.perm_append_right_iff _).mpr (by simpa using a3))
+  generalize hq : (scanDir now (fs.filter (inDir curSl)) (scanDir now (fs.filter (inDir newSl)) [] []).1
+      (scanDir now (fs.filter (inDir newSl)) [] []).2) = r2 at b2 hnames hheap
+  obtain ⟨d1, d2⟩ := pqDrain_spec r2.2.length r2.2 (Nat.le_refl _) b2
+  have hD : (pqDrain r2.2.length r2.2).Perm (entries now 0 nd) := d1.trans hheap
+  have hmem : ∀ e ∈ pqDrain r2.2.length r2.2, ∃ f, nd[e.id]? = some f ∧ e.dt = f.mtime := by
+    intro e he
+    have := entries_mem now nd [] e (by simpa using hD.subset he)
+    simpa using this
+  refine ⟨(pqDrain r2.2.length r2.2).map (fileAt nd), ?_, ?_, ?_⟩
+  · have := hD.map (fileAt nd)
+    have h2 := entries_files now nd []
+    simp only [List.length_nil, List.nil_append] at h2
+    rw [h2] at this
+    exact this
+  · rw [List.pairwise_map]
+    refine (List.Pairwise.and_mem.mp d2).imp ?_
+    intro a b ⟨ha, hb, hab⟩
+    obtain ⟨fa, ha1, ha2⟩ := hmem a ha
+    obtain ⟨fb, hb1, hb2⟩ := hmem b hb
+    have ea : fileAt nd a = fa := by simp [fileAt, List.getD_eq_getElem?_getD, ha1]
+    have eb : fileAt nd b = fb := by simp [fileAt, List.getD_eq_getElem?_getD, hb1]
+    rw [ea, eb, ← ha2, ← hb2]; exact hab
+  · unfold getlist
+    simp only [hq, List.map_map]
+    apply List.map_congr_left
+    intro e he
+    obtain ⟨f, h1, _⟩ := hmem e he
+    have ef : fileAt nd e = f := by simp [fileAt, List.getD_eq_getElem?_getD, h1]
+    have en : r2.1.getD e.id [] = f.path := by
+      rw [hnames]; simp [List.getD_eq_getElem?_getD, h1]
+    simp only [Function.comp, ef, en, startMsg, sizeAt]
+    cases fsFind fs f.path <;> rfl
 
 end Nq.Lemmas.Pop3Heap
